@@ -46,7 +46,7 @@ def write_replay(oid, payload):
 
 
 def prove_pairs(res, oid, pairs, hyp=None, sampler=None, pv=None, call=None, backend="nf", subst=None,
-                seed=0, rtol=1e-6, expect_fail=False, signvars=None, prec="d", inv_atoms=False, coef_tol=None, cut=None, budget=None):
+                seed=0, rtol=1e-6, expect_fail=False, signvars=None, prec="d", inv_atoms=False, coef_tol=None, cut=None, budget=None, cut_size=None):
     """Discharge `lhs == rhs` for every (entry, lhs, rhs) in pairs with the nf back end.
     On failure look for a numeric witness (inputs from `sampler` restricted to the path of `pv`) and replay it
     natively through `call` = (extract, fn, bufs).  One record per entry."""
@@ -105,7 +105,7 @@ def prove_pairs(res, oid, pairs, hyp=None, sampler=None, pv=None, call=None, bac
     try:
         if cut:
             # generalised goal: sub-DAGs (libm calls, divisions) shared by both sides become fresh variables (sound, see diff.cut_shared)
-            cprs, _names = dd.cut_shared(pairs, ops=cut)
+            cprs, _names = dd.cut_shared(pairs, ops=cut, min_size=cut_size)
             ctx, out = engine.nf_prove(cprs, hyp, subst, inv_atoms=inv_atoms, coef_tol=coef_tol)
             backend = backend + "+cut"
             cut_failed = any(not ok for _, ok, _ in out)
